@@ -17,3 +17,8 @@ import SpoxModel.Props.C17
 #print axioms C17.floordiv_float_partial
 #print axioms C17.floordiv_bare_div_counterexample
 #print axioms Dispatch.floordiv_correct
+#print axioms C17.var_dunders_wired
+#print axioms C17.genWiring_fwd
+#print axioms C17.genWiring_rev
+#print axioms C17.operator_is_dispatch
+#print axioms C17.unary_operator_is_dispatch
